@@ -57,6 +57,9 @@ PTRef Model::evaluate(PTRef term) {
         if (symDef.find(symbol) != symDef.end()) {
             TemplateFunction const & tfun = symDef.at(symbol);
             val = logic.instantiateFunctionTemplate(tfun, nargs);
+        } else if (logic.isUF(symbol)) {
+            // A function not known to the theory solvers: the default function, consistently with getDefinition()
+            val = logic.getDefaultValuePTRef(logic.getSym(symbol).rsort());
         } else {
             val = logic.insertTerm(symbol, std::move(nargs));
         }
